@@ -108,8 +108,10 @@ def _h_arr(n, p2, p3, h1, h2, h3, top, share, ss, marker, nondict):
     snap = pk.snapshot()
     try:
         n = max(1, _c(n, 5))
-        p2, p3 = _c(p2, 2), _c(p3, 3)
-        hs = [0, _c(h1, 5), _c(h2, 5), _c(h3, 5)]
+        # parameters that the arrangement does not use are not looked at (a concretised-but-unused parameter still forks paths)
+        p2 = _c(p2, 2) if n >= 3 else 0
+        p3 = _c(p3, 3) if n >= 4 else 0
+        hs = [0, _c(h1, 5) if n >= 2 else 0, _c(h2, 5) if n >= 3 else 0, _c(h3, 5) if n >= 4 else 0]
         top, share, ss, marker, nondict = _c(top, 4), _c(share, 4), _c(ss, 2), _c(marker, 4), _c(nondict, 2)
         ev("arr", n, p2, p3, str(hs), top, share, ss, marker, nondict)
         # every choice is concrete from here on (no symbolic value reaches pyworkers in this harness),
